@@ -48,6 +48,13 @@ def decorate(rng, a, mode):
         elif len(sh) == 2 and sh[0] >= 2 and rng.random() < 0.4:
             a['w'][t] = [a['w'][t][j] for i in range(sh[0]) for j in range(sh[1])]
             a['pat'][t] = 'expand'
+        elif len(sh) >= 2 and all(x >= 2 for x in sh) and rng.random() < 0.6:
+            # the same dense weights held as a PERMUTED VIEW (what .t() / .permute() / a JSON spec with "vaxes": [1, 0] give):
+            # the virtual axes are the physical ones in another order
+            perm = list(range(len(sh)))
+            while perm == sorted(perm):
+                rng.shuffle(perm)
+            a['pat'][t] = ('perm', perm)
     return a
 
 
@@ -68,6 +75,11 @@ def patterned_hooks(a):
             def h(ten):
                 k = PhysicalAxis(ten.shape[0])
                 return PatternedTensor(ten.diagonal().clone(), (k,), (k, k), 0.)
+            hooks[t] = h
+        elif isinstance(p, (tuple, list)) and p[0] == 'perm':
+            def h(ten, perm=list(p[1])):
+                inv = [perm.index(i) for i in range(len(perm))]
+                return PatternedTensor(ten.permute(perm).contiguous()).permute(inv)
             hooks[t] = h
         elif p == 'expand':
             def h(ten):
